@@ -361,8 +361,8 @@ class _BodyImportsResolver(ast.NodeTransformer):
     """
     A name bound by an import statement in the body of a function (from pkg import conf,
     from pkg.conf import fun, import pkg.conf as conf) is not a name of the module of the function. It is
-    replaced by the full path of what it denotes (pkg.conf, pkg.conf.fun), which is looked up from the root
-    like the modules that are imported by their own name (import pkg.conf).
+    replaced by the full dotted name of what it denotes ('pkg.conf', 'pkg.conf.fun'), which is looked up from the
+    root and cannot be hidden by a name of the function or of its module.
 
     As in Python, an import statement binds its names in the whole scope that contains it: they are seen in the
     scopes nested in that scope unless these bind the same name, and they are not seen outside.
@@ -482,12 +482,9 @@ class _BodyImportsResolver(ast.NodeTransformer):
         parts = self._aliases.get(node.id)
         if parts is None or not isinstance(node.ctx, ast.Load):
             return node
-        res: ast.expr = ast.copy_location(ast.Name(id=parts[0], ctx=ast.Load()), node)
-        for p in parts[1:]:
-            res = ast.copy_location(
-                ast.Attribute(value=res, attr=p, ctx=ast.Load()), node
-            )
-        return res
+        # The full (dotted) name of the object: it is no name that the function or its module can bind, and it is
+        # looked up from the root (see ObjectRetrieval.retrieve_object).
+        return ast.copy_location(ast.Name(id=".".join(parts), ctx=ast.Load()), node)
 
 
 def _resolve_body_imports(
@@ -750,6 +747,15 @@ class IntroVisitor(_ScopedVisitor):
             # by directly importing the function.
             if isinstance(obj, FunctionType) or inspect.isclass(obj):
                 self._inspect_reference(node)
+        elif (
+            "." in node.id
+            and LocalVar(node.id) not in self._store_names
+            and id(node) not in self._called_nodes
+        ):
+            # The full name of an object imported in the body of the function (see _BodyImportsResolver).
+            self._store_names.add(LocalVar(node.id))
+            if _referenced_callable([node.id], self._start_mod, self._gctx) is not None:
+                self._inspect_reference(node)
 
         self.generic_visit(node)
 
@@ -793,7 +799,7 @@ class IntroVisitor(_ScopedVisitor):
             and root is not None
             and isinstance(node.ctx, ast.Load)
             and id(root) not in self._called_nodes
-            and parts[0] in self._start_mod.__dict__
+            and (parts[0] in self._start_mod.__dict__ or "." in parts[0])
             and parts[0] not in python_builtin_names
             and LocalVar(parts[0]) not in self._scope_locals
             and LocalVar("/".join(parts)) not in self._store_names
@@ -940,6 +946,9 @@ class ExternalVarsVisitor(_ScopedVisitor):
         ):
             # The module is imported in the body of the function: it is looked up from the root.
             parts = self._imported_modules[parts[0]] + parts[1:]
+        elif parts is not None and "." in parts[0]:
+            # The full name of a module imported in the body of the function (see _BodyImportsResolver).
+            pass
         elif (
             parts is not None
             and parts[0] not in self._start_mod.__dict__
